@@ -172,7 +172,9 @@ def check_case(case):
             bad.append(('median:running2d', 'got %s expected %s' % (got.tolist(), exp)))
     elif f == 'uniq':
         arr = np.array(case['x'], dtype=case['dtype'])
-        if case.get('scale'):
+        if case.get('scale') == 'inf':       # the largest value becomes +inf, the smallest -inf (runs of equal infinities)
+            arr = np.where(arr == 2, np.inf, np.where(arr == 0, -np.inf, arr)).astype(case['dtype'])
+        elif case.get('scale'):
             arr = arr * np.array(case['scale'], dtype=case['dtype'])
         if case.get('index') is None:
             got = pydl.uniq(arr)
@@ -292,7 +294,7 @@ def run_task(task):
         for x in itertools.combinations_with_replacement((0, 1, 2), n):
             for dt in ('int64', 'float64', 'int16'):
                 _do(acc, {'f': 'uniq', 'x': list(x), 'dtype': dt, 'index': None}, len(set(x)) > 1)
-            for dt, scale in (('float64', 1e-17), ('float64', 1e-300), ('float32', 1e-10), ('float64', 1e17)):
+            for dt, scale in (('float64', 1e-17), ('float64', 1e-300), ('float32', 1e-10), ('float64', 1e17), ('float64', 'inf'), ('float32', 'inf')):
                 _do(acc, {'f': 'uniq', 'x': list(x), 'dtype': dt, 'index': None, 'scale': scale}, len(set(x)) > 1)
     elif f == 'uniqidx':
         n = task['n']
@@ -304,8 +306,9 @@ def run_task(task):
                 _do(acc, {'f': 'uniq', 'x': list(x), 'dtype': 'int64', 'index': list(perm)},
                     list(perm) != list(range(n)) or len(set(x)) > 1)
                 if n <= 4:
-                    _do(acc, {'f': 'uniq', 'x': list(x), 'dtype': 'float64', 'index': list(perm), 'scale': 1e-17},
-                        list(perm) != list(range(n)) or len(set(x)) > 1)
+                    for scale in (1e-17, 'inf'):
+                        _do(acc, {'f': 'uniq', 'x': list(x), 'dtype': 'float64', 'index': list(perm), 'scale': scale},
+                            list(perm) != list(range(n)) or len(set(x)) > 1)
     elif f == 'rebin':
         shape = task['shape']
         for d in itertools.product(*[targets(s) for s in shape]):
